@@ -2,7 +2,8 @@
 (* Validates traces recorded by harness/vh/c11.go (martian.Proxy driven through a     *)
 (* harness listener, connections and round tripper) against Lifecycle.tla.            *)
 (* Logged: reset, accept / send / vanish (harness acted), forwarded (the round        *)
-(* tripper was entered), reply (harness let the origin answer), response (client      *)
+(* tripper was entered), reply / finish (harness let the origin send the head / the   *)
+(* end of the body), response (client                                                  *)
 (* received a complete response), sockclosed (proxy closed the connection), sd_call,   *)
 (* sd_begun (harness asserts the signal has been given: it waited long enough),        *)
 (* sd_return, ctx_expire, close (Close() returned).  Registration, the closing         *)
@@ -26,6 +27,7 @@ Reset == /\ Ev("reset")
   /\ fwd' = [c \in Conns |-> [k \in Req |-> FALSE]]
   /\ resp' = [c \in Conns |-> [k \in Req |-> FALSE]]
   /\ sd' = "idle" /\ sdBegun' = FALSE /\ ctx' = "live" /\ cl' = "idle" /\ served' = {}
+  /\ willClose' = [c \in Conns |-> FALSE] /\ atSd' = {}
 Logged ==
   \/ Reset
   \/ (Ev("accept")    /\ (Accept(Cur) \/ AcceptLate(Cur)))
@@ -33,8 +35,12 @@ Logged ==
   \/ (Ev("vanish")    /\ ClientVanish(Cur))
   \/ (Ev("forwarded") /\ HRoundTrip(Cur))
   \/ (Ev("reply")     /\ OriginReply(Cur))
+  \* the end of the body may be sent into the void when the proxy has given the exchange up (client gone)
+  \/ (Ev("finish")    /\ (OriginFinish(Cur) \/ (pc[Cur] # "wbody" /\ sock[Cur] # "open" /\ UNCHANGED vars)))
   \* an observation, possibly logged after the proxy has already gone on (the client parses concurrently)
   \/ (Ev("response")  /\ resp[Cur][nreq[Cur]] /\ UNCHANGED vars)
+  \* observation: 2 s after its response the connection is still open, i.e. it awaits another request
+  \/ (Ev("parked")    /\ pc[Cur] = "read" /\ sock[Cur] = "open" /\ UNCHANGED vars)
   \/ (Ev("sockclosed") /\ ((HClose(Cur) /\ sock[Cur] # "closed") \/ ClConn(Cur)))
   \/ (Ev("sd_call")   /\ SdCall)
   \/ (Ev("sd_begun")  /\ sdBegun /\ UNCHANGED vars)
@@ -43,7 +49,7 @@ Logged ==
   \/ (Ev("close")     /\ ClDone)
 Silent == /\ UNCHANGED l
           /\ \/ \E c \in Conns : HLock1(c) \/ HReg(c) \/ HChk1(c) \/ HRead(c) \/ HChk2(c) \/ HDec(c) \/ HLock2(c) \/ HUnreg(c)
-                                \/ HWrite(c)
+                                \/ HWriteHead(c) \/ HWriteAbort(c) \/ HWriteEnd(c) \/ HChk3(c)
                                 \/ (HClose(c) /\ sock[c] = "closed")    \* second Close of an already closed socket
              \/ SdLock \/ ClCall \/ ClLock
 TNext == Logged \/ Silent
